@@ -7,7 +7,7 @@ From Coq Require Import String.
 From Coq Require Import List ZArith QArith Reals Bool Lra.
 From LNGen Require Import Src_c06 Src_c06_flags.
 From Coquelicot Require Import Coquelicot.
-From LN Require Import C06_Defs C06_Proofs C06_Deriv.
+From LN Require Import C06_Defs C06_Proofs C06_Deriv C06_Transfer.
 Import ListNotations.
 Local Open Scope R_scope.
 
@@ -216,6 +216,62 @@ Proof.
 Qed.
 Print Assumptions C06_fn_separable_deriv.
 
+(* ---- transfer: the extracted exact-rational instance [Qops] (what the driver compares with the library on the doubles it saw)
+        and the real instance [Rops] (what the theorems above are about) are the same functions on rational points ---- *)
+Theorem C06_model_transfer :
+  (* scalar structure: Q2R is an order embedding of ordered fields *)
+  (forall a b, o_ltb Qops a b = o_ltb Rops (Q2R a) (Q2R b)) /\
+  (* per-coefficient loss kernels (value, gradient) *)
+  (forall t o, Q2R (k_mse_v Qops t o) = k_mse_v Rops (Q2R t) (Q2R o)) /\ (forall t o, Q2R (k_mse_g Qops t o) = k_mse_g Rops (Q2R t) (Q2R o)) /\
+  (forall t o, Q2R (k_mae_v Qops t o) = k_mae_v Rops (Q2R t) (Q2R o)) /\ (forall t o, Q2R (k_mae_g Qops t o) = k_mae_g Rops (Q2R t) (Q2R o)) /\
+  (forall t o, Q2R (k_hinge_v Qops t o) = k_hinge_v Rops (Q2R t) (Q2R o)) /\ (forall t o, Q2R (k_hinge_g Qops t o) = k_hinge_g Rops (Q2R t) (Q2R o)) /\
+  (forall t o, Q2R (k_sqhinge_v Qops t o) = k_sqhinge_v Rops (Q2R t) (Q2R o)) /\ (forall t o, Q2R (k_sqhinge_g Qops t o) = k_sqhinge_g Rops (Q2R t) (Q2R o)) /\
+  (forall al t o, Q2R (k_pinball_v Qops al t o) = k_pinball_v Rops (Q2R al) (Q2R t) (Q2R o)) /\
+  (forall al t o, Q2R (k_pinball_g Qops al t o) = k_pinball_g Rops (Q2R al) (Q2R t) (Q2R o)) /\
+  (* a sample's loss and gradient, for any kernel pair related by Q2R *)
+  (forall kq kr, (forall t o, Q2R (kq t o) = kr (Q2R t) (Q2R o)) -> forall t o, Q2R (loss_v Qops kq t o) = loss_v Rops kr (QR t) (QR o)) /\
+  (forall kq kr, (forall t o, Q2R (kq t o) = kr (Q2R t) (Q2R o)) -> forall t o, QR (loss_g kq t o) = loss_g kr (QR t) (QR o)) /\
+  (* error rules *)
+  (forall t o, Q2R (err_absdiff Qops t o) = err_absdiff Rops (QR t) (QR o)) /\
+  (forall eps t o, err_count Qops eps t o = err_count Rops (Q2R eps) (QR t) (QR o)) /\
+  (forall eps t o, err_sclass Qops eps t o = err_sclass Rops (Q2R eps) (QR t) (QR o)) /\
+  (forall o, argmax Qops o = argmax Rops (QR o)) /\
+  (* benchmark functions (value, gradient) *)
+  (forall x, Q2R (sphere_v Qops x) = sphere_v Rops (QR x)) /\ (forall x, QR (sphere_g Qops x) = sphere_g Rops (QR x)) /\
+  (forall x, Q2R (axis_v Qops x) = axis_v Rops (QR x)) /\ (forall x, QR (axis_g Qops x) = axis_g Rops (QR x)) /\
+  (forall x, Q2R (schumer_v Qops x) = schumer_v Rops (QR x)) /\ (forall x, QR (schumer_g Qops x) = schumer_g Rops (QR x)) /\
+  (forall x, Q2R (chung_v Qops x) = chung_v Rops (QR x)) /\ (forall x, QR (chung_g Qops x) = chung_g Rops (QR x)) /\
+  (forall x, Q2R (sargan_v Qops x) = sargan_v Rops (QR x)) /\ (forall x, QR (sargan_g Qops x) = sargan_g Rops (QR x)) /\
+  (forall x, Q2R (zakharov_v Qops x) = zakharov_v Rops (QR x)) /\ (forall x, QR (zakharov_g Qops x) = zakharov_g Rops (QR x)) /\
+  (forall x, Q2R (qing_v Qops x) = qing_v Rops (QR x)) /\ (forall x, QR (qing_g Qops x) = qing_g Rops (QR x)) /\
+  (forall x, Q2R (styblinski_v Qops x) = styblinski_v Rops (QR x)) /\ (forall x, QR (styblinski_g Qops x) = styblinski_g Rops (QR x)) /\
+  (forall x, Q2R (trid_v Qops x) = trid_v Rops (QR x)) /\ (forall x, QR (trid_g Qops x) = trid_g Rops (QR x)) /\
+  (forall x, Q2R (rosenbrock_v Qops x) = rosenbrock_v Rops (QR x)) /\ (forall x, QR (rosenbrock_g Qops x) = rosenbrock_g Rops (QR x)) /\
+  (forall x, Q2R (dixon_v Qops x) = dixon_v Rops (QR x)) /\ (forall x, QR (dixon_g Qops x) = dixon_g Rops (QR x)) /\
+  (forall x, Q2R (chained_lq_v Qops x) = chained_lq_v Rops (QR x)) /\ (forall x, QR (chained_lq_g Qops x) = chained_lq_g Rops (QR x)) /\
+  (forall x, Q2R (rotated_v Qops x) = rotated_v Rops (QR x)) /\ (forall x, QR (rotated_g Qops x) = rotated_g Rops (QR x)) /\
+  (forall x, Q2R (maxq_v Qops x) = maxq_v Rops (QR x)) /\ (forall x, QR (maxq_g Qops x) = maxq_g Rops (QR x)) /\
+  (* constraints *)
+  (forall o r x, Q2R (cons_ball_v Qops o r x) = cons_ball_v Rops (QR o) (Q2R r) (QR x)) /\
+  (forall o x, QR (cons_ball_g Qops o x) = cons_ball_g Rops (QR o) (QR x)) /\
+  (forall q r x, Q2R (cons_linear_v Qops q r x) = cons_linear_v Rops (QR q) (Q2R r) (QR x)) /\
+  (forall q x, QR (cons_linear_g q x) = cons_linear_g (QR q) (QR x)) /\
+  (forall s v d x, Q2R (cons_coord_v Qops s v d x) = cons_coord_v Rops (Q2R s) (Q2R v) d (QR x)) /\
+  (forall s d x, QR (cons_coord_g Qops s d x) = cons_coord_g Rops (Q2R s) d (QR x)).
+Proof. exact model_transfer. Qed.
+Print Assumptions C06_model_transfer.
+
+(* ... so that the theorems over R apply verbatim to the extracted model on rational (= double) points *)
+Theorem C06_transfer_applied :
+  (forall t o o' : list Q, length o' = length o ->
+     Q2R (loss_v Qops (k_mae_v Qops) t o') >=
+     Q2R (loss_v Qops (k_mae_v Qops) t o) + Q2R (dot Qops (loss_g (k_mae_g Qops) t o) (vsub Qops o' o))) /\
+  (forall x z : list Q, length z = length x ->
+     Q2R (sphere_v Qops z) >= Q2R (sphere_v Qops x) + Q2R (dot Qops (sphere_g Qops x) (vsub Qops z x))
+                              + 2 / 2 * Q2R (dot Qops (vsub Qops z x) (vsub Qops z x))).
+Proof. exact (conj transfer_mae_convex transfer_sphere_convex). Qed.
+Print Assumptions C06_transfer_applied.
+
 (* ---- non-vacuity: the hypotheses are satisfiable and the objects are not degenerate ---- *)
 Example C06_nonvacuous_sphere :
   length [1; 2] = length [3; 4] /\ sphere_v Rops [3; 4] = 25 /\ Rdot (sphere_g Rops [3; 4]) (Rvsub [1; 2] [3; 4]) = -28 /\ sphere_v Rops [1; 2] = 5.
@@ -250,4 +306,15 @@ Proof.
   assert (G : Rgeb (cb3_v1 2 (-3)) (Rmax (cb3_v2 2 (-3)) (cb3_v3 2 (-3))) = true).
   { unfold Rgeb, Rltb. destruct (Rlt_dec _ _) as [L|L]; [|reflexivity]. exfalso. rewrite V1, V2, Rmax_left in L; lra. }
   repeat split; auto; unfold cb3_pa, cb3_pb; rewrite G; unfold cb3_p1a, cb3_p1b; lra.
+Qed.
+
+Example C06_nonvacuous_transfer :   (* a branchy object on concrete rationals: hinge on and off the kink, arg-max with a tie *)
+  Q2R (k_hinge_v Qops 1%Q (1 # 2)%Q) = k_hinge_v Rops 1 (/ 2) /\ (k_hinge_v Qops 1 (1 # 2) == 1 # 2)%Q /\
+  argmax Qops [1; 3; 3; 2]%Q = 1%nat /\ argmax Rops (map Q2R [1; 3; 3; 2]%Q) = 1%nat.
+Proof.
+  split; [|split; [|split]].
+  - rewrite h_hinge_v. f_equal; unfold Q2R; simpl; lra.
+  - vm_compute. reflexivity.
+  - vm_compute. reflexivity.
+  - rewrite <- h_argmax. vm_compute. reflexivity.
 Qed.
